@@ -101,6 +101,13 @@ CRYSTALS = {
         choices=[(np.diag([2, 2, 2]), "P"), (np.diag([3, 3, 3]), "P")],
         nac=False,
     ),
+    "hcp_6dec": dict(  # the same structure as a user's file carries it: coordinates to six decimals (ties between periodic images hold to ~1e-6 A only)
+        lattice=_hex(2.95, 4.68),
+        symbols=["Ti", "Ti"],
+        positions=[[0.333333, 0.666667, 0.25], [0.666667, 0.333333, 0.75]],
+        choices=[(np.diag([2, 2, 2]), "P"), (np.diag([3, 3, 2]), "P"), (np.diag([2, 2, 1]), "P")],
+        nac=False, inexact=True,  # the spring model on these positions is invariant under the idealised space group to ~1e-6 only
+    ),
     "afm_mixed": dict(  # antiferromagnet with species interleaved so that grouping by species is a non-involutive permutation
         lattice=np.diag([3.02, 3.02, 4.31]),
         symbols=["Fe", "O", "O", "Fe"],
@@ -160,7 +167,7 @@ CRYSTALS = {
     ),
 }
 
-SMALL = ["perovskite", "nacl_prim", "cscl", "hcp", "bcc_afm", "bct", "rhombo_hex", "wurtzite", "tric", "mono", "ortho_c", "rutile", "si", "nacl"]
+SMALL = ["perovskite", "nacl_prim", "cscl", "hcp", "hcp_6dec", "afm_mixed", "bcc_afm", "bct", "rhombo_hex", "wurtzite", "tric", "mono", "ortho_c", "rutile", "si", "nacl"]
 
 
 class World:
